@@ -26,7 +26,8 @@ from autofit.non_linear.analysis.indexed import IndexedAnalysis, IndexCollection
 from autofit.non_linear.analysis.free_parameter import FreeParameterAnalysis  # noqa: E402
 from autofit.non_linear.analysis.model_analysis import ModelAnalysis, CombinedModelAnalysis  # noqa: E402
 
-WAIT = float(os.environ.get("C15_WAIT", "20"))
+WAIT = float(os.environ.get("C15_WAIT", "10"))
+CASE_LIMIT = int(os.environ.get("C15_CASE_LIMIT", "120"))
 
 
 class SteerTimeout(BaseException):
@@ -111,6 +112,7 @@ class Steer:
         self.pending = [0] * len(pool.processes)
         self.masks = []
         self.sweep = -1
+        self.progress = time.time()
         self.real = []
         for i, p in enumerate(pool.processes):
             self.real.append(p.queue)
@@ -121,6 +123,7 @@ class Steer:
             self.pending[i] += n
         self.masks = masks
         self.sweep = -1
+        self.progress = time.time()
 
     def residue(self):
         """Whatever is (or will shortly be) left on the real result queues."""
@@ -173,6 +176,8 @@ class QProxy:
         if not allowed:
             return True
         if st.pending[self.idx] <= 0:
+            if time.time() - st.progress > WAIT:
+                raise SteerTimeout("results() keeps polling although every expected result was consumed")
             return self.real.empty()
         t0 = time.time()
         while self.real.empty():
@@ -183,6 +188,7 @@ class QProxy:
 
     def get(self, *a, **kw):
         self.steer.pending[self.idx] -= 1
+        self.steer.progress = time.time()
         return self.real.get(*a, **kw)
 
     def __getattr__(self, item):
@@ -433,12 +439,22 @@ def run_case(c, idx):
     raise ValueError(kind)
 
 
+def _alarm(signum, frame):
+    raise SteerTimeout("case exceeded %d s (the pool never returned)" % CASE_LIMIT)
+
+
 def main():
+    import signal
     cases = json.load(open(sys.argv[1]))["cases"]
     out = []
+    signal.signal(signal.SIGALRM, _alarm)
     for i, c in enumerate(cases):
         try:
-            out.append({"ok": run_case(c, c.get("idx", i))})
+            signal.alarm(CASE_LIMIT)
+            try:
+                out.append({"ok": run_case(c, c.get("idx", i))})
+            finally:
+                signal.alarm(0)
         except SteerTimeout as e:
             out.append({"exc": "SteerTimeout", "msg": str(e)})
         except BaseException as e:  # noqa
